@@ -212,7 +212,8 @@ Init ==
   /\ ExactInput(n, P, pal, kind, par, F)
   /\ life = "created" /\ cur = 1 /\ atInit = 0 /\ hist = <<>> /\ wAt = par.w
 
-Canon == <<"IS", "IN", "AP", "UP", "AP", "IN", "AP", "SO", "AP", "IN", "AP", "DN", "UP", "IN", "AP", "DN", "DS">>
+\* value update AND set_omega before the second apply (stale values and stale parameter at once), then re-initialisation
+Canon == <<"IS", "IN", "AP", "UP", "SO", "AP", "IN", "AP", "DN", "UP", "IN", "AP", "DN", "DS">>
 Enabled(op) == IF Mode = "canon" THEN Len(hist) < Len(Canon) /\ Canon[Len(hist) + 1] = op
                ELSE Len(hist) < MaxHist
 
